@@ -261,7 +261,22 @@ def run(ctx):
             w = dict(basis=label, element=z, method=method)
             if method == 'autoaux':
                 plan = {l: xs for l, xs in a['plan']}
-                ok = sorted(plan) == sorted(got) and all(len(plan[l]) == len(got[l]) and all(close7(g, float(Fraction(p))) for p, g in zip(plan[l], got[l])) for l in plan)
+                bounds = {l: float(Fraction(x)) for l, x in a['bounds']}
+
+                def ladder_same(l):
+                    pl, gl = plan[l], got[l]
+                    if not all(close7(g, float(Fraction(p))) for p, g in zip(pl, gl)):
+                        return False
+                    if len(pl) == len(gl):
+                        return True
+                    # the loop stops at the first rung >= the bound; when a rung equals the bound up to float rounding (0.4 vs
+                    # 0.2 + 0.2 = 0.4000000000000001) exact and float arithmetic may stop one rung apart
+                    k = min(len(pl), len(gl)) - 1
+                    if abs(len(pl) - len(gl)) == 1 and k >= 0 and abs(float(Fraction(pl[k])) - bounds[l]) <= 1e-9 * abs(bounds[l]):
+                        R.count('ladder_stop_on_float_boundary')
+                        return True
+                    return False
+                ok = sorted(plan) == sorted(got) and all(ladder_same(l) for l in plan)
                 if not ok:
                     R.disagree('autoaux_plan', w, str({l: [float(Fraction(x)) for x in xs][:4] for l, xs in plan.items()})[:300], str({l: v[:4] for l, v in got.items()})[:300])
             else:
